@@ -27,6 +27,34 @@ fn step(_: &mut (), t: &mut Toks) -> R<String> {
             };
             Ok(ok(show_vec(&res)))
         }
+        "interp_alias" => {
+            // x and tgt are windows of ONE buffer: x = &buf[xa..xa+n], tgt = &buf[tb..tb+k] (aliasing must be invisible)
+            let variant = t.tok()?;
+            let mode = match t.tok()? {
+                "panic" => ExtrapolationMode::Panic,
+                "extrap" => ExtrapolationMode::Extrapolate,
+                "fill" => {
+                    let (l, r) = (t.f64()?, t.f64()?);
+                    ExtrapolationMode::Fill(l, r)
+                }
+                _ => return Err(BadOp),
+            };
+            let (xa, n, tb, k) = (t.usize()?, t.usize()?, t.usize()?, t.usize()?);
+            let buf = t.vec()?;
+            let y = t.vec()?;
+            t.end()?;
+            if xa + n > buf.len() || tb + k > buf.len() {
+                return Err(BadOp);
+            }
+            let x = &buf[xa..xa + n];
+            let tg = &buf[tb..tb + k];
+            let res = match variant {
+                "chk" => interp1d_linear(x, &y, tg, mode),
+                "unc" => interp1d_linear_unchecked(x, &y, tg, mode),
+                _ => return Err(BadOp),
+            };
+            Ok(ok(show_vec(&res)))
+        }
         _ => Err(BadOp),
     }
 }
